@@ -227,6 +227,16 @@ def _hl5_long_region(case):
     return hl == 5 and 1 <= lp <= 15 and (ip < 0 or ip >= 32) and int(case.get("frames", 0)) >= 67
 
 
+def _ovl4_region(case):
+    """fourth deadlock family: overlays with the default 5-layer hierarchy (hierarchical_levels=4) and >= 25 pictures.
+    Measured with intra period -1: N pictures never finish when N >= 25 and (N-1) mod 16 >= 8 (25..32, 41..48, 57..64,
+    80, 90, 96 hang; 17..24, 33..40, 49..56, 81, 97 finish); with an intra period the pattern applies per GOP in a way
+    that also depends on the refresh type, so the region is kept coarse.  Reproduced with the snapshot's own
+    SvtAv1EncApp (--hierarchical-levels 4 --enable-overlays 1 -n 32 hangs, -n 33 finishes)."""
+    return (int(case.get("cfg.hierarchical_levels", 4)) == 4 and int(case.get("cfg.enable_overlays", 0)) == 1
+            and int(case.get("frames", 0)) >= 25)
+
+
 def _ipmg_region(case):
     """second deadlock family: <= 2 logical processors and an intra period that is a whole number of mini-GOPs
     (the configuration the API header recommends); send_picture blocks for ever on the input pool after ~16 pictures,
@@ -247,7 +257,7 @@ def known_hang_region(case):
     still run them (short watchdog); the others skip them because they cannot be judged there."""
     try:
         n = int(case.get("frames", 0))
-        return (_hl5_region(case) and n >= 32) or _hl5_long_region(case) or (_ipmg_region(case) and n >= 10) or (_sbcol_region(case) and n >= 1)
+        return (_hl5_region(case) and n >= 32) or _hl5_long_region(case) or _ovl4_region(case) or (_ipmg_region(case) and n >= 10) or (_sbcol_region(case) and n >= 1)
     except ValueError:
         return False
 
@@ -258,6 +268,8 @@ def hang_sig(case):
             return "hl5+(overlays|lp<=2)"
         if _hl5_long_region(case):
             return "hl5+lp<=15+frames>=67"
+        if _ovl4_region(case):
+            return "hl4+overlays+frames>=25"
         if _ipmg_region(case):
             return "lp<=2+intra-period-whole-minigops"
         if _sbcol_region(case):
